@@ -357,55 +357,97 @@ from rules.trie import r01_3  # noqa: E402,F401  (build_trie rules live in rules
 
 # ------------------------------------------------------------------------------------------------- R01.4 / R04.3
 def r01_4(cx):
+    """close_start_state_loop_for_leftmost on summaries: under leftmost semantics with a matching start state, every
+    transition of the unanchored start state that points back to it goes to DEAD, in the sparse list and in the dense row."""
     b = cx.body(COMP + 'close_start_state_loop_for_leftmost')
-    lg = bool_gates(b, lambda x: is_call(x, r'MatchKind::is_leftmost$') and tstr(x[2][0]) == 'self.builder.match_kind')
-    mg = bool_gates(b, lambda x: is_call(x, r'State::is_match$') and 'start' in tstr(expand_vars(b, x)))
-    sp = [(bi, tt, v) for bi, si, tt, v, s in b.field_stores() if tt[0] == 'f' and tt[2] == 'next' and 'sparse' in tstr(tt)]
-    dn = [(bi, tt, v) for bi, si, tt, v, s in b.field_stores() if 'self.nfa.dense' in tstr(tt) or (is_call(tt, r'IndexMut::index_mut$') and tstr(peel(tt[2][0])) == 'self.nfa.dense')]
-    ok = len(sp) == 1 and len(dn) == 1 and is_named_const(sp[0][2], r'NFA::DEAD$') and is_named_const(dn[0][2], r'NFA::DEAD$')
-    cx.report('R01.4', b, 'stores', ok, 'one sparse and one dense store, both of NFA::DEAD' if ok else 'expected one sparse and one dense DEAD store, found %d / %d' % (len(sp), len(dn)))
-    if not ok:
-        return
-    sb, db = sp[0][0], dn[0][0]
-    okg = bool(lg) and bool(mg) and not reachable_without(b, [sb, db], [e for g in lg for e in g[2]]) and not reachable_without(b, [sb, db], [e for g in mg for e in g[2]])
-    cx.report('R01.4', b, 'guard', okg, 'the loop is closed only under is_leftmost && start.is_match()' if okg else 'the start loop can be closed without is_leftmost && start.is_match()')
-    # only self-loop transitions are redirected
-    def selfloop(x):
-        e = eq_cond(x)
-        if not e:
-            return False
-        sides = [tstr(expand_vars(b, s0)) for s0 in (e[0], e[1])]
-        return any('Transition::next' in s0 or s0.endswith('.next') for s0 in sides) and any('start_unanchored_id' in s0 for s0 in sides)
-    sg = bool_gates(b, selfloop)
-    cut = []
-    for g in sg:
-        e = eq_cond(g[1])
-        cut += g[2] if e[2] else g[3]
-    oks = bool(sg) and not reachable_without(b, [sb], cut)
-    cx.report('R01.4', b, 'self-loop-only', oks, 'only transitions that point back to the start state are redirected to DEAD' if oks else 'transitions other than the self loop can be redirected')
-    # dense row kept coherent: after the sparse store, the dense store follows unless dense == 0
-    zg = bool_gates(b, lambda x: eq_cond(x) is not None and any('StateID::ZERO' in tstr(s0) for s0 in eq_cond(x)[:2]) and any(is_var(peel(s0), 'dense') for s0 in eq_cond(x)[:2]))
-    zero_edges = []
-    for g in zg:
-        e = eq_cond(g[1])
-        zero_edges += g[2] if e[2] else g[3]   # edges taken when dense == ZERO
-    loops = b.loops()
-    h = [x for x, blks in loops.items() if sb in blks]
-    okd = bool(zg) and bool(h)
-    if okd:
-        hh = h[0]
-        r = b.reach(sb, cut_blocks=[db], cut_edges=zero_edges) - {sb}
-        okd = hh not in r - {db}
-    cx.report('R04.3', b, 'dense-coherent', okd, 'the dense row entry of the same byte class is set to DEAD whenever a dense row exists' if okd else 'the sparse self loop is closed without updating the dense row')
-    # index = dense + class(byte of the same link)
-    tt = dn[0][1]
-    idx = tt[2][1] if is_call(tt, r'IndexMut::index_mut$') else (tt[2] if tt[0] == 'idx' else None)
-    oki = False
-    if idx is not None:
-        i2 = strip_convs(expand_vars(b, idx, keep=('dense', 'link', 'self')))
-        s = tstr(i2, 300)
-        oki = 'dense' in s and 'ByteClasses::get' in s and '.byte' in s and 'link' in s
-    cx.report('R04.3', b, 'dense-index', oki, 'dense index = dense + byte_classes.get(sparse[link].byte)' if oki else 'dense index is %s' % (tstr(idx, 200) if idx else None))
+    START = 'self.nfa.special.start_unanchored_id'
+    why = dict.fromkeys(('stores', 'guard', 'self', 'dense', 'index'))
+    nls = b.calls(r'NFA::next_link$')
+    h = innermost_loop(b, nls[0][0]) if len(nls) == 1 else None
+    if h is None:
+        why = dict.fromkeys(why, 'the walk over the start state\'s transitions (one next_link loop) was not found')
+    else:
+        arr = [r for r in Sym(cx.facts, b, start=0, stop={h}).rows() if r.end == ('stop', h)]
+        if not arr:
+            why['guard'] = 'the walk is never reached'
+        for r in arr:
+            lm = r.cond(lambda c: is_call(canon(c), r'MatchKind::is_leftmost$') and cstr(canon(c)[2][0]) == 'self.builder.match_kind')
+            im = r.cond(lambda c: is_call(canon(c), r'noncontiguous::State::is_match$') and START in cstr(strip_old(c)))
+            if lm is not True or im is not True:
+                why['guard'] = 'the start loop can be closed without is_leftmost && start.is_match()'
+        rows = loop_rows(cx.facts, b, h)
+        nsp = 0
+        for r in rows:
+            nl = [c[1] for c, v in r.conds if c[0] == 'discr' and is_call(c[1], r'NFA::next_link$') and v == 1]
+            sts = [(canon(strip_old(p0)), canon(v0)) for p0, v0 in r.stores()]
+            if not nl:
+                if sts:
+                    why['stores'] = 'stores outside the visit of a transition'
+                continue
+            LINK = cstr(('f', ('dc', strip_old(nl[0]), 'Some'), '0'))
+            SP = r'core::ops::Index(Mut)?::index(_mut)?\(self\.nfa\.sparse, %s\)' % re.escape(LINK)
+            sp = [(p0, v0) for p0, v0 in sts if re.match(SP + r'\.next$', cstr(p0))]
+            dn = [(p0, v0) for p0, v0 in sts if is_call(p0, r'Index(Mut)?::index(_mut)?$') and cstr(p0[2][0]) == 'self.nfa.dense']
+            oth = [cstr(p0) for p0, v0 in sts if (p0, v0) not in sp and (p0, v0) not in dn]
+            if oth:
+                why['stores'] = 'unexpected store to %s' % oth
+            if any(not is_named_const(v0, r'NFA::DEAD$') for p0, v0 in sp + dn) or len(sp) > 1 or len(dn) > 1:
+                why['stores'] = 'expected at most one sparse and one dense store, both of NFA::DEAD'
+            selfc = None
+            densez = None
+            DENSE = None
+            for c, v in r.conds:
+                cc = canon(strip_old(c))
+                if cc[0] == 'op' and cc[1] in ('Eq', 'Ne'):
+                    e, iseq = (cc[2], cc[3]), cc[1] == 'Eq'
+                elif is_call(cc, r'PartialEq::(eq|ne)$'):
+                    e, iseq = (cc[2][0], cc[2][1]), short(cc[1]).endswith('eq')
+                else:
+                    continue
+                ks = [cstr(e[0]), cstr(e[1])]
+                if START in ks and any(re.match(SP + r'\.next$', k) for k in ks):
+                    selfc = (v == iseq)
+                if 'util::primitives::StateID::ZERO' in ks:
+                    other = [k for k in ks if k != 'util::primitives::StateID::ZERO']
+                    if other and other[0].endswith('.dense') and START in other[0]:
+                        DENSE = other[0]
+                        densez = (v == iseq)
+            if sp:
+                nsp += 1
+                if selfc is not True:
+                    why['self'] = 'a transition is redirected to DEAD without being tested to point back to the start state'
+                if densez is None:
+                    why['dense'] = 'closing the sparse self loop does not look at whether a dense row exists'
+                elif densez is False and not dn:
+                    why['dense'] = 'the sparse self loop is closed without updating the dense row'
+                elif densez is True and dn:
+                    why['dense'] = 'a dense entry is written although the start state has no dense row'
+                if dn:
+                    idx = dn[0][0][2][1]
+                    try:
+                        byte = SP.replace('\\', '')
+                        def at(t0):
+                            s0 = cstr(strip_old(t0))
+                            if DENSE is not None and s0 == DENSE:
+                                return 100
+                            if is_call(canon(t0), r'ByteClasses::get$') and cstr(canon(t0)[2][0]) == 'self.nfa.byte_classes' and re.match(SP + r'\.byte$', cstr(strip_old(canon(t0)[2][1]))):
+                                return 7
+                            return None
+                        if teval(strip_old(idx), at) != 107:
+                            why['index'] = 'dense index is %s (expected dense + byte_classes.get(sparse[link].byte))' % tstr(idx, 160)
+                    except (Unsupported, EvalPanic) as ex0:
+                        why['index'] = 'dense index is %s (expected dense + byte_classes.get(sparse[link].byte))' % tstr(idx, 160)
+            elif dn:
+                why['dense'] = 'a dense entry is written without closing the sparse self loop'
+            elif selfc is True:
+                why['self'] = 'a transition that points back to the start state is not redirected'
+        if nsp == 0:
+            why['stores'] = why['stores'] or 'no path redirects a transition'
+    cx.report('R01.4', b, 'stores', why['stores'] is None, 'one sparse and one dense store per self-loop transition, both of NFA::DEAD' if why['stores'] is None else why['stores'])
+    cx.report('R01.4', b, 'guard', why['guard'] is None, 'the loop is closed only under is_leftmost && start.is_match()' if why['guard'] is None else why['guard'])
+    cx.report('R01.4', b, 'self-loop-only', why['self'] is None, 'exactly the transitions that point back to the start state are redirected to DEAD' if why['self'] is None else why['self'])
+    cx.report('R04.3', b, 'dense-coherent', why['dense'] is None, 'the dense row entry of the same byte class is set to DEAD whenever a dense row exists' if why['dense'] is None else why['dense'])
+    cx.report('R04.3', b, 'dense-index', why['index'] is None, 'dense index = dense + byte_classes.get(sparse[link].byte)' if why['index'] is None else why['index'])
 
 
 # ------------------------------------------------------------------------------------------------- R03.2 / R16.4
@@ -558,8 +600,13 @@ def r09_5(cx):
                     why = why or 'a step does not copy sparse[ulink].next into sparse[alink].next (%s)' % [s for s in sts if s[0].endswith('.next')]
                 # both cursors advance to the links just visited
                 mods, _ = sym.loop_mods(h)
-                adv = sorted(cstr(r.env[l]) for l in mods if l in r.env and is_agg(canon(r.env[l]), r'Option$', 'Some') and b.locals[l]['names'])
-                if adv != sorted(['core::option::Option::Some{0: %s}' % UL, 'core::option::Option::Some{0: %s}' % AL]):
+                adv = set()
+                for l in mods:
+                    if l in r.env and b.locals[l]['names']:
+                        for s0 in subterms(canon(r.env[l])):
+                            if is_agg(s0, r'Option$', 'Some'):
+                                adv.add(cstr(s0))
+                if adv != {'core::option::Option::Some{0: %s}' % UL, 'core::option::Option::Some{0: %s}' % AL}:
                     why = why or 'the two link cursors do not both advance to the links just copied'
             elif r.end != 'diverge':
                 if not both_none:
